@@ -134,6 +134,15 @@ class NumEval:
             return ClassRef(mod, mod.classes[name])
         if name in mod.consts:
             return mod.consts[name]
+        for st in mod.tree.body:
+            # module-level values that are not foldable constants (tuples, ranges, tables)
+            tgt = None
+            if isinstance(st, ast.Assign) and len(st.targets) == 1 and isinstance(st.targets[0], ast.Name):
+                tgt, val = st.targets[0].id, st.value
+            elif isinstance(st, ast.AnnAssign) and isinstance(st.target, ast.Name) and st.value is not None:
+                tgt, val = st.target.id, st.value
+            if tgt == name:
+                return Frame(self, mod, {}).expr(val)
         if name in mod.imports:
             target, orig = mod.imports[name]
             if orig is None:
@@ -462,6 +471,39 @@ class Frame:
     def e_Tuple(self, e):
         return tuple(self.expr(x) for x in e.elts)
 
+    def _comp(self, gens, fn):
+        def rec(i):
+            if i == len(gens):
+                fn()
+                return
+            g = gens[i]
+            it = self.expr(g.iter)
+            if isinstance(it, range):
+                it = list(it)
+            if not isinstance(it, (list, tuple)):
+                raise AnalysisError("engine B: comprehension over %r" % (it,))
+            for v in list(it):
+                self.assign(g.target, v)
+                if all(self.truth(self.expr(c), c) for c in g.ifs):
+                    rec(i + 1)
+        saved = dict(self.env)
+        try:
+            rec(0)
+        finally:
+            # comprehension variables do not leak
+            for k in list(self.env):
+                if k not in saved:
+                    del self.env[k]
+            self.env.update(saved)
+
+    def e_ListComp(self, e):
+        out = []
+        self._comp(e.generators, lambda: out.append(self.expr(e.elt)))
+        return out
+
+    e_GeneratorExp = e_ListComp
+    e_SetComp = e_ListComp
+
     def e_IfExp(self, e):
         return self.expr(e.body) if self.truth(self.expr(e.test), e.test) else self.expr(e.orelse)
 
@@ -572,7 +614,15 @@ class Frame:
                             raise PyRaise("ZeroDivisionError", node)
                         raise AnalysisError("engine B: negative symbolic modulus")
                 return B.mod_sym(Aff.of(a), Aff.of(b))
-            raise AnalysisError("engine B: division by a symbolic value")
+            if isinstance(op, ast.FloorDiv):
+                lo, _ = B.bounds(bb)
+                if lo is None or lo < 1:
+                    if not B.decide_ge0(bb - 1, "divisor>0 at line %d" % getattr(node, "lineno", 0)):
+                        if B.decide_eq0(bb, "divisor==0"):
+                            raise PyRaise("ZeroDivisionError", node)
+                        raise AnalysisError("engine B: negative symbolic divisor")
+                return B.floordiv_sym(Aff.of(a), Aff.of(b), "//@%d" % getattr(node, "lineno", 0))
+            raise AnalysisError("engine B: true division by a symbolic value")
         if isinstance(op, ast.BitAnd):
             if isinstance(a, int):
                 a, b = b, a
@@ -598,6 +648,9 @@ class Frame:
             return a is b
         if isinstance(op, ast.IsNot):
             return a is not b
+        if isinstance(op, (ast.In, ast.NotIn)):
+            r = self.member(a, b, node)
+            return r if isinstance(op, ast.In) else not r
         if isinstance(a, bool):
             a = int(a)
         if isinstance(b, bool):
@@ -626,6 +679,23 @@ class Frame:
             return r if isinstance(op, ast.Eq) else not r
         raise AnalysisError("engine B: unsupported comparison %s %r %r at %s:%d"
                             % (type(op).__name__, a, b, self.mod.name, getattr(node, "lineno", 0)))
+
+    def member(self, a, b, node):
+        if isinstance(b, range):
+            if b.step != 1:
+                raise AnalysisError("engine B: membership in a stepped range")
+            if isinstance(a, int):
+                return a in b
+            lab = "%s@%d" % (_short(node), getattr(node, "lineno", 0))
+            return B.decide_ge0(Aff.of(a) - b.start, lab + " [lo]") and B.decide_ge0(Aff(b.stop - 1) - Aff.of(a), lab + " [hi]")
+        if isinstance(b, (list, tuple)):
+            for x in b:
+                if self.compare(ast.Eq(), a, x, node):
+                    return True
+            return False
+        if hasattr(b, "contains"):
+            return b.contains(self, a, node)
+        raise AnalysisError("engine B: membership test in %r" % (b,))
 
     def truth(self, v, node=None):
         if isinstance(v, bool):
@@ -862,7 +932,79 @@ def _b_isinstance(ev, args, kw, node):
     raise AnalysisError("engine B: isinstance")
 
 
+def _b_sum(ev, args, kw, node):
+    total = args[1] if len(args) > 1 else 0
+    it = args[0]
+    if isinstance(it, range):
+        it = list(it)
+    for x in it:
+        total = (total + x) if isinstance(total, int) and isinstance(x, int) else Aff.of(total) + Aff.of(x)
+    return total
+
+
+def _b_zip(ev, args, kw, node):
+    seqs = []
+    for a in args:
+        if isinstance(a, range):
+            a = list(a)
+        if not isinstance(a, (list, tuple)):
+            raise AnalysisError("engine B: zip over %r" % (a,))
+        seqs.append(list(a))
+    return [tuple(t) for t in zip(*seqs)]
+
+
+def _b_enumerate(ev, args, kw, node):
+    a = args[0]
+    if isinstance(a, range):
+        a = list(a)
+    if not isinstance(a, (list, tuple)):
+        raise AnalysisError("engine B: enumerate over %r" % (a,))
+    start = args[1] if len(args) > 1 else kw.get("start", 0)
+    return [(i + start, x) for i, x in enumerate(a)]
+
+
+def _b_reversed(ev, args, kw, node):
+    a = args[0]
+    if isinstance(a, range):
+        a = list(a)
+    if not isinstance(a, (list, tuple)):
+        raise AnalysisError("engine B: reversed over %r" % (a,))
+    return list(reversed(a))
+
+
+def _b_divmod(ev, args, kw, node):
+    a, b = args
+    if isinstance(a, int) and isinstance(b, int):
+        if b == 0:
+            raise PyRaise("ZeroDivisionError", node)
+        return divmod(a, b)
+    bb = B.norm(Aff.of(b))
+    if not bb.is_const() or bb.c <= 0:
+        raise AnalysisError("engine B: divmod by a non-constant or non-positive value")
+    return tuple(B.divmod_const(Aff.of(a), int(bb.c)))
+
+
+def _b_anyall(is_any):
+    def f(ev, args, kw, node):
+        fr = Frame(ev, None, {})
+        for x in args[0]:
+            t = fr.truth(x)
+            if is_any and t:
+                return True
+            if not is_any and not t:
+                return False
+        return not is_any
+    return f
+
+
 BUILTINS = {
+    "sum": _b_sum,
+    "zip": _b_zip,
+    "enumerate": _b_enumerate,
+    "reversed": _b_reversed,
+    "divmod": _b_divmod,
+    "any": _b_anyall(True),
+    "all": _b_anyall(False),
     "len": _b_len,
     "min": _b_minmax(True),
     "max": _b_minmax(False),
